@@ -9,7 +9,8 @@
 From Coq Require Import String Ascii List Bool ZArith.
 From LC Require Import Common NumDefs XmlDefs EntTreeDefs PrintDefs LoadDefs RoundtripSpec XmlTextProofs
      RoundtripReadProofs RoundtripLoadProofs RoundtripFlatProofs RoundtripEncProofs RoundtripOrderProofs
-     RoundtripStableProofs RoundtripMapsProofs RoundtripPathProofs RoundtripConnProofs RoundtripConnTopProofs RoundtripWitness.
+     RoundtripStableProofs RoundtripMapsProofs RoundtripPathProofs RoundtripConnProofs RoundtripConnTopProofs
+     RoundtripConnFinalProofs RoundtripImportProofs RoundtripImportContentProofs RoundtripWitness.
 From LCGen Require RuleTable.
 Import ListNotations.
 Local Open Scope string_scope.
@@ -195,6 +196,55 @@ Theorem C02_roundtrip_connections_partial : forall E m, printable E true m -> no
 Proof. exact RoundtripConnTopProofs.roundtrip_conn_partial. Qed.
 Print Assumptions C02_roundtrip_connections_partial.
 
+(** * roundtrip, stage 4, NO extra hypothesis: every printable model without imports — connections with mapping and
+      connection ids, encapsulation of any depth, resets, math — prints to the intended tree, the strict parser (with fix
+      C02-crossed-map-variables) raises no issue on it, and the re-parsed model has the same content as canon m (up to
+      child order; the equivalences as name paths with their ids) *)
+Theorem C02_roundtrip_connections : forall E m, printable E true m -> no_imports m = true ->
+  exists m', print_model E true m = Some (print_tree E m) /\ load E true true (print_tree E m) = (m', [])
+             /\ content_eq m' (canon E m).
+Proof.
+  intros E m H Hni. destruct (RoundtripConnFinalProofs.roundtrip_conn_final E m H Hni) as (m' & H1 & H2 & H3 & _). eauto.
+Qed.
+Print Assumptions C02_roundtrip_connections.
+
+(** the hypothesis of C02_roundtrip_connections_partial always holds *)
+Theorem C02_printed_groups_well_formed : forall E m, printable E true m -> no_imports m = true ->
+  groups_ok (m_comps m) [] (conn_groups (build_maps m) []).
+Proof. exact RoundtripConnFinalProofs.groups_ok_printable. Qed.
+Print Assumptions C02_printed_groups_well_formed.
+
+(** non-vacuity: a printable model with crossed connections between two components, no imports *)
+Example C02_roundtrip_connections_nonvacuous : printableb E0 true w_crossed_names = true /\ no_imports w_crossed_names = true.
+Proof. vm_compute. split; reflexivity. Qed.
+Print Assumptions C02_roundtrip_connections_nonvacuous.
+
+(** * stage 5 (imports), what is proved *)
+
+(** loadImport on ONE printed import element, for every model and every collated source: a fresh import source (numbered
+    by the element's position) with the url and id written, exactly the imported units and components the printer listed
+    under it (names, ids, references, in order), no issue *)
+Theorem C02_load_import_element : forall m j k, units_of m j <> [] \/ comps_of m j <> [] ->
+  load_import k (print_import ident m j) = (map (lu k j) (units_of m j), map (lc k j) (comps_of m j), []).
+Proof. exact RoundtripImportProofs.load_print_import. Qed.
+Print Assumptions C02_load_import_element.
+
+(** flat models WITH imports (imported units, imported components; no hierarchy, no connections): the re-parsed model,
+    exactly: imported entities first, grouped by import element and renumbered, then the canonical local ones; no issue *)
+Theorem C02_roundtrip_flat_imports_exact : forall E fx m, printable E true m -> no_hierarchy m = true -> no_connections m = true ->
+  load E fx true (print_tree E m)
+  = ({| m_name := m_name m; m_id := m_id m; m_encid := m_encid m; m_units := U' E m; m_comps := C' E m; m_eqv := [] |}, []).
+Proof. exact RoundtripImportProofs.load_print_tree_flat_imports. Qed.
+Print Assumptions C02_roundtrip_flat_imports_exact.
+
+(** ... and it has the same content as canon m: grouping the imported entities by import element is a permutation, and
+    what is read back differs from the canonical entity only in the number of its import source *)
+Theorem C02_roundtrip_flat_imports : forall E m, printable E true m -> no_hierarchy m = true -> no_connections m = true ->
+  forall fx, exists m', print_model E true m = Some (print_tree E m) /\ load E fx true (print_tree E m) = (m', [])
+                        /\ content_eq m' (canon E m).
+Proof. exact RoundtripImportContentProofs.roundtrip_flat_imports. Qed.
+Print Assumptions C02_roundtrip_flat_imports.
+
 (** the loader, element by element (used by every stage) *)
 Theorem C02_load_unit : forall E d, unitdef_ok E true d = true -> load_unit E (print_unit E ident d) = (canon_unitdef E d, []).
 Proof. exact RoundtripLoadProofs.load_print_unit. Qed.
@@ -243,19 +293,16 @@ Proof. vm_compute. reflexivity. Qed.
 Print Assumptions C02_rules_in_table.
 
 (* NOT PROVED (see design_notes/C02.md):
-   (4) roundtrip with CONNECTIONS, unconditionally:
-         forall E m, printable E true m -> no_imports m = true ->
-           exists m', load E true true (print_tree E m) = (m', []) /\ content_eq m' (canon E m)
-       What is proved: C02_roundtrip_connections_partial gives the exact re-parsed model under the hypothesis
-       [groups_ok cs [] (conn_groups (build_maps m) [])]; C02_build_maps_complete, C02_connections_complete / uniform /
-       distinct, C02_all_comps_comp_at, C02_find_comp_unique supply every ingredient of that hypothesis.  Missing (time):
-       (a) the derivation of groups_ok from them (distinct variable-name pairs inside a group from the distinctness of
-       edges + unique variable names; "no earlier pair" from C02_connections_distinct + no-reversed-pairs + unique
-       component names); (b) add_list [] l = l from the distinctness of the resolved edges (RoundtripConnProofs.
-       add_list_distinct is proved; its premise is not derived); (c) group connection id = each entry's id from
-       one_cid_per_pair; (d) the Permutation chain to content_eq.  No new conjunct of [printable] was needed so far.
-   (5) roundtrip with IMPORTS (import-source renumbering, imported entities listed first, placeholder variables): not
-       attempted beyond C02_print_nonempty, C02_import_sources_distinct, C02_imported_units_covered.
-   second_print_stable beyond flat models: not proved (C02_second_print_stable_flat is).
-   All three statements are CHECKED on every generated model by the correspondence run (extracted printableb / load /
-   canon compared up to child order; second print and second parse compared with the model and with the first). *)
+   (5) roundtrip with IMPORTS in general.  Proved: C02_print_nonempty (all features), C02_load_import_element (one import
+       element, any model), C02_import_sources_distinct / C02_imported_units_covered (collation), and
+       C02_roundtrip_flat_imports_exact / C02_roundtrip_flat_imports (flat models with imports: exact re-parsed model, and
+       content_eq with canon m).  Missing (time): imports together with an encapsulation hierarchy (loadComponentRef's
+       forest invariant with renumbered import sources; RoundtripEncProofs would have to be generalised over the shell
+       transformation) and with connections (placeholder variables created by loadConnection inside imported components
+       change the forest during the fold over connections, so RoundtripConnProofs.load_group's "forest unchanged"
+       no longer holds).
+   second_print_stable beyond flat models (C02_second_print_stable_flat is proved): needs printable (re-parsed model),
+       i.e. edges_distinct / one_cid_per_pair / vpath_valid for the RESOLVED equivalences and invariance of printable
+       under the re-ordering of the top level; not done.
+   Both statements are CHECKED on every generated model by the correspondence run (extracted printableb / load / canon
+   compared up to child order; second print and second parse compared with the model and with the first). *)
